@@ -1,5 +1,6 @@
 import MemcVerif.Model.Handler
 import MemcVerif.Generated.Tables
+import MemcVerif.Model.Skip
 /-!
 # The model's tables are the source's tables
 
@@ -61,6 +62,9 @@ theorem tie_limits :
       requestValid { hdr0 with extrasLen := l.1 + 1, bodyLen := l.1 + 2 } true = false ∧
       requestValid { hdr0 with keyLen := l.2, bodyLen := l.2 } true = true ∧
       requestValid { hdr0 with keyLen := l.2 + 1, bodyLen := l.2 + 1 } true = false) := by decide
+
+theorem tie_skip_buf :
+    Holds Gen.skipBuf (fun n => n = SKIP_BUF) := by decide
 
 theorem tie_version :
     Holds Gen.version (fun v => v = VERSION) := by decide
